@@ -1665,6 +1665,8 @@ def real_samples(
     num = size // 2 if not nonnegative and not user_specified_bounds else size
     if include_infinity and not user_specified_bounds:
         num -= 1
+    # the stepping below needs at least the two end points
+    num = max(num, 2)
     assert not isinstance(min_value, tuple)
     assert not isinstance(max_value, tuple)
 
